@@ -48,7 +48,8 @@ def gather(args):
                 continue
             air.log.clear()
             try:
-                n.write(RF24NetworkFrame(RF24NetworkHeader(d, 0), b"x"))
+                with sim.guard(s, 3_000_000_000):
+                    n.write(RF24NetworkFrame(RF24NetworkHeader(d, 0), b"x"))
             except Exception as e:  # noqa
                 tx[d] = None
                 continue
@@ -59,7 +60,8 @@ def gather(args):
             for lvl in range(5):
                 air.log.clear()
                 try:
-                    n.multicast(b"x", 0, lvl)
+                    with sim.guard(s, 3_000_000_000):
+                        n.multicast(b"x", 0, lvl)
                 except Exception:  # noqa
                     pass
                 mc.append(air.log[0]["addr"] if air.log else None)
